@@ -30,6 +30,7 @@ from .core import Abort, HarnessError, SymFP, SymInt, SymReal, rv
 ROOT = os.path.dirname(os.path.dirname(os.path.abspath(__file__)))
 EXIT_OK, EXIT_VIOLATION, EXIT_INCONCLUSIVE, EXIT_HARNESS = 0, 1, 2, 3
 ROBUST_FACTORS = [10**6, 10**3, 10]
+ITEM_BUDGET_S = 150  # wall-clock budget of one configuration (all its paths, obligations and replays)
 OBLIG_TIMEOUT_MS = int(os.environ.get("VERIF_OBLIG_TIMEOUT_MS", "20000"))
 XCHECK_RATE = float(os.environ.get("VERIF_XCHECK_RATE", "0.02"))  # thorough tier: share of solver-discharged obligations re-decided by cvc5
 XCHECK_CAP = int(os.environ.get("VERIF_XCHECK_CAP", "60"))  # per worker chunk
@@ -589,11 +590,38 @@ def _worker(args):
     mod = importlib.import_module(modname)
     st = Stats()
     rng = random.Random(seed)
+    import signal
+
+    def _alarm(signum, frame):
+        raise HarnessError("time budget of one configuration exceeded (the code under test does not terminate on this input?)")
+
+    budget = getattr(mod, "ITEM_BUDGET_S", ITEM_BUDGET_S)
+    try:
+        signal.signal(signal.SIGALRM, _alarm)
+    except (ValueError, AttributeError):  # not in the main thread of the worker: no budget
+        budget = 0
     for cfg in chunk:
         try:
-            process_item(mod, cfg, st, rng, tier)
+            if budget:
+                signal.setitimer(signal.ITIMER_REAL, budget)
+            try:
+                process_item(mod, cfg, st, rng, tier)
+            finally:
+                if budget:
+                    signal.setitimer(signal.ITIMER_REAL, 0)
         except HarnessError as e:
-            if not concrete_fallback(mod, cfg, st, str(e)):
+            # (the concrete fallback gets its own budget: a run that does not terminate on plain floats either is reported as such)
+            try:
+                if budget:
+                    signal.setitimer(signal.ITIMER_REAL, max(30, budget // 3))
+                ok = concrete_fallback(mod, cfg, st, str(e))
+            except HarnessError as e2:
+                ok = False
+                e = e2
+            finally:
+                if budget:
+                    signal.setitimer(signal.ITIMER_REAL, 0)
+            if not ok:
                 st.errors.append("HarnessError cfg=%s: %s" % (json.dumps(cfg)[:300], e))
         except Exception as e:  # noqa - a crash of harness code is a harness error, never a verdict
             st.errors.append("harness crash cfg=%s: %s" % (json.dumps(cfg)[:300], traceback.format_exc()[-1500:]))
